@@ -1,3 +1,4 @@
+import Varint.Bridge.PFOR
 import Varint.Bridge.Group
 import Varint.Bridge.Delta
 import Varint.Bridge.RLE
@@ -171,5 +172,22 @@ theorem c_group_size_exact (xs : List Nat) (hx : ∀ x ∈ xs, x < 2 ^ 64) (h256
   · intro h
     unfold Group.size
     rw [if_pos h]
+
+
+/-- **the PFOR size predictor on the translated C** (`varintPFORSize`, its per-exception loop machine-translated): for
+    the analysis of any good array it returns the model's advertised size, which bounds the bytes the encoder writes (and
+    is exact when there are no exceptions); `varintPFORCalculateMarker` returns the model's marker for every width. -/
+theorem c_pfor_size_bounds (xs : List Nat) (g : PFOR.Good xs) (t : Nat) (fuel : Nat) (hf : xs.length < fuel) :
+    Varint.Gen.C.pforSize fuel (PFOR.compute xs t).min (PFOR.compute xs t).count (PFOR.compute xs t).width
+        (PFOR.compute xs t).exceptionCount = some (PFOR.size (PFOR.compute xs t)) ∧
+    (PFOR.enc xs t).length ≤ PFOR.size (PFOR.compute xs t) ∧
+    Varint.Gen.C.pforMarker (PFOR.compute xs t).width = (PFOR.compute xs t).marker := by
+  have f := PFOR.compute_facts xs g t
+  have hlen : xs.length < 2 ^ 32 := g.2.1
+  have hmin : (PFOR.compute xs t).min < 2 ^ 64 := g.2.2 _ f.min_mem
+  refine ⟨?_, (pfor_extent_le_size xs g t).1, ?_⟩
+  · exact Varint.Bridge.PFOR.pforSize_eq _ hmin (by rw [f.count_eq]; exact hlen) f.width_le
+      (by have := f.exc_le; omega) fuel (by have := f.exc_le; omega)
+  · rw [Varint.Bridge.PFOR.pforMarker_eq _ (by have := f.width_le; omega), f.marker_eq]
 
 end Varint.Props.C03
